@@ -330,6 +330,10 @@ Lemma drop_S_app (a : string) (c : ascii) (w : string) :
   string_drop (S (String.length a)) (a ++ String c w) = w.
 Proof. induction a; simpl; auto. Qed.
 
+Lemma drop_open_app (a z : string) :
+  string_drop (String.length a + 2) (a ++ "/*" ++ z) = z.
+Proof. induction a as [|c a IH]; [reflexivity|]. cbn [String.length Nat.add append string_drop]. exact IH. Qed.
+
 Lemma literal_step (remaining lft W out body rest m : string) (q : ascii) (k : nat) :
   remaining = lft ++ String q W ->
   find_close k (string_drop (S (String.length lft)) remaining) "" = Some (body, rest) ->
@@ -382,8 +386,12 @@ Proof.
     destruct (split_once "/*" pre) as [[s2 t]|] eqn:E2.
     + (* a comment opens *)
       apply split_once_spec in E2. subst pre.
-      assert (Hplain : one_line ((out ++ s2) ++ t) = true).
-      { apply (one_line_drop_mid (out ++ s2) "/*" t). rewrite !app_assoc_s. exact Hpre. }
+      (* the scanner goes on in the whole remaining line after the "/*" *)
+      assert (Hplain : one_line ((out ++ s2) ++ string_drop (String.length s2 + 2) remaining) = true).
+      { assert (Hr : remaining = s2 ++ "/*" ++ t ++ x) by (rewrite Hx, !app_assoc_s; reflexivity).
+        rewrite Hr, drop_open_app.
+        apply (one_line_drop_mid (out ++ s2) "/*" (t ++ x)).
+        rewrite app_assoc_s, <- Hr. exact Hinv. }
       destruct (negb (starts_with "#include" s2) && negb asm).
       * destruct (split_once """" s2) as [[lft z]|] eqn:E3.
         -- destruct (find_close _ _ _) as [[body rest]|] eqn:Efc in H; [|discriminate].
